@@ -529,6 +529,21 @@ def check(prop, harness_specs, tier, assumptions, expected_probes=()):
             log("violation: %s %s seed=%d: %s" % (hname, cls, r["seed"], r.get("msg", "")))
         else:
             faults_m.append(mf)
+    # written-out samples: the workload and the first scheduler decisions of a few explored runs
+    written = []
+    for name, flags, share in harness_specs:
+        cand = [r for r in all_results if r.get("harness") == name and r.get("ok") and r.get("preempt", 0) >= 1 and "seed" in r][:2]
+        for r in cand:
+            sd = os.path.join(BUILD, "tmp", "sample_%s_%d" % (prop, os.getpid()))
+            os.makedirs(sd, exist_ok=True)
+            wl, dc = os.path.join(sd, "w.txt"), os.path.join(sd, "d.txt")
+            rr = run_single(exes[name], r["seed"], tier, r.get("faults_on", -1), emit_workload=wl, emit_decisions=dc)
+            try:
+                written.append({"harness": name, "seed": r["seed"], "strategy": rr.get("strategy"), "steps": rr.get("steps"), "switches": rr.get("switches"),
+                                "event_hash": rr.get("hash"), "workload_first_lines": open(wl).read().split("\n")[:25],
+                                "first_decisions_step_rank": [l.split() for l in open(dc).read().split("\n")[:40] if l]})
+            except Exception:
+                pass
     wall = time.time() - t0
     cov = summarise(all_results, [h[0] for h in harness_specs], tier, wall, build_s,
                     {"runs_per_harness": per, "failing_runs": len(fails), "failure_classes": sorted(set(r["cls"] for r in fails)),
@@ -537,6 +552,8 @@ def check(prop, harness_specs, tier, assumptions, expected_probes=()):
     cov["rare_branch_probes_never_hit"] = dead
     if dead and tier == "thorough" and not violations:
         faults_m.append("probes never hit in a thorough batch (workload or fault mix must change): %s" % dead)
+    if written:
+        cov["samples"] = written + cov["samples"][:1]
     write_evidence(prop, tier, base_seed(), cov, wall, len(violations), assumptions)
     log("%s: %d runs, %d distinct non-trivial, %d failing, %.0fs" % (prop, cov["evaluations"], cov["distinct_nontrivial"], len(fails), wall))
     return finish(prop, violations, known_lines, faults_m)
